@@ -1,4 +1,3 @@
-use std::cmp::Ordering;
 use std::hash::Hash;
 use std::marker::PhantomData;
 
@@ -241,21 +240,22 @@ impl<U: TimeUnitTrait> DateTime<U> {
         let mut dt = self.as_cr().unwrap();
         let dm = duration.months;
         if dm != 0 {
-            let (flag, dt_year) = dt.year_ce();
             if dm < 0 {
                 unimplemented!("not support year before ce or negative month")
             }
-            let dt_month = if flag {
-                (dt_year * 12 + dt.month()) as i32
-            } else {
-                dt_year as i32 * (-12) + dt.month() as i32
-            };
-            let delta_down = dt_month % dm;
-            dt = match delta_down.cmp(&0) {
-                Ordering::Equal => dt,
-                Ordering::Greater => dt - Months::new(delta_down as u32),
-                Ordering::Less => dt - Months::new((dm - delta_down.abs()) as u32),
-            };
+            // months are counted from 0 so that every period starts in a month whose
+            // index is a multiple of dm (January for periods dividing 12)
+            let month_index = dt.year() * 12 + dt.month0() as i32;
+            let delta_down = month_index.rem_euclid(dm);
+            // first instant of the current month, then back to the start of the period
+            let month_start = dt
+                .date_naive()
+                .with_day(1)
+                .unwrap()
+                .and_hms_opt(0, 0, 0)
+                .unwrap()
+                .and_utc();
+            dt = month_start - Months::new(delta_down as u32);
             if let Some(nd) = duration.inner.num_nanoseconds() {
                 if nd == 0 {
                     return dt.into();
